@@ -140,6 +140,9 @@ pub fn run(opts: &Opts) -> i32 {
     }
     let labels = if let Some(r) = &opts.replay {
         let rj = crate::read_json(&r.to_string_lossy()).unwrap_or(Value::Null);
+        if let Some(var) = rj["env_var"].as_str() {
+            *build::EXTRA_ENV.lock().unwrap() = vec![(var.to_string(), "1".to_string())];
+        }
         // a failure found in another build variant is replayed in that variant
         match rj["variant"].as_str() {
             Some("-rel") => build::set_variant("-rel"),
@@ -230,6 +233,33 @@ pub fn run(opts: &Opts) -> i32 {
             Err(e) => infra_err = Some(format!("no-mmap configuration: {}", e)),
         }
         build::set_variant("");
+    }
+    // ---- the same oracles with every environment variable that the library reads set to "1" (none on the pinned
+    // tree: the stage only exists when the source mentions one)
+    if opts.replay.is_none() {
+        for var in build::discovered_env_vars() {
+            *build::EXTRA_ENV.lock().unwrap() = vec![(var.clone(), "1".to_string())];
+            for (label, u) in &us {
+                if label != "fixed" && label != "extra" && label != "wide" {
+                    continue;
+                }
+                match build::run_bin(label, &opts.prop, opts, &[]) {
+                    Ok(mut r) => {
+                        if let Some(fs) = r["failures"].as_array_mut() {
+                            for f in fs.iter_mut() {
+                                f["universe"] = json!(label);
+                                f["env_var"] = json!(var);
+                                f["message"] = json!(format!("[with the environment variable {}=1] {}", var, f["message"].as_str().unwrap_or("")));
+                            }
+                        }
+                        agg.add_report(&r);
+                        agg.universes.push(json!({"label": format!("{} (with {}=1)", label, var), "definitions": u.adts.len(), "subjects": u.subjects.len(), "wall_s": r["wall_s"]}));
+                    }
+                    Err(e) => infra_err = Some(e),
+                }
+            }
+            build::EXTRA_ENV.lock().unwrap().clear();
+        }
     }
     // ---- the same oracles with everything built as a release build would be (no debug assertions, no overflow
     // checks): behaviour that only debug assertions keep in check shows up here
